@@ -27,11 +27,17 @@ theorem gen_get_kind_tests :
        "tree_param.name.value.startswith('__')", "param_appeared", "p == '/'", "p == '*'",
        "p.type == 'param'", "p.star_count", "p == tree_param"] := by decide
 
-/-- separators of `to_string`, the `[1:]` of a bound signature, the pieces of `docstring()` -/
+/-- separators of `to_string`, the rule for a bound signature (`_remove_bound_param`: keep a leading
+`*args`, else `[1:]`), the pieces of `docstring()` -/
 theorem gen_rendering_literals :
     JediModel.Gen.C11.paramToStringLiterals = [": ", "="] ∧
     JediModel.Gen.C11.sigToStringLiterals = [")", " -> ", "/", "(", "/", ", ", "*"] ∧
-    JediModel.Gen.C11.boundSlice = ["params[1:]"] ∧
+    JediModel.Gen.C11.boundRule = ["_remove_bound_param(params)"] ∧
+    JediModel.Gen.C11.abstractBoundRule = ["_remove_bound_param(param_names)"] ∧
+    JediModel.Gen.C11.removeBoundParam =
+      ["(param_names)",
+       "if param_names and param_names[0].get_kind() == Parameter.VAR_POSITIONAL: return param_names",
+       "return param_names[1:]"] ∧
     JediModel.Gen.C11.docstringReturns =
       ["''", "doc", "signature_text + '\\n\\n' + doc", "signature_text + doc"] ∧
     JediModel.Gen.C11.docSignatureJoin = ["\n"] := by decide
@@ -127,49 +133,104 @@ theorem signature_params_unbound (s : Sig)
     signatureParams false (paramNames s.toks) = s.params := by
   simp [signatureParams, paramNames_toks s hpk hko, processParams_params s h]
 
-/-- bound ⇒ exactly the first parameter is dropped -/
+/-- bound and the first parameter is a named one ⇒ exactly that parameter is dropped -/
 theorem bound_drops_self (s : Sig)
     (hpk : ∀ p ∈ s.pk, dunder p.name = false) (hko : ∀ p ∈ s.ko, dunder p.name = false)
-    (h : ((s.pk ++ s.ko).map P.name).Nodup) :
-    signatureParams true (paramNames s.toks) = s.params.drop 1 := by
-  simp [signatureParams, paramNames_toks s hpk hko, processParams_params s h]
-
-/-- Python's view of a bound method (`inspect._signature_bound_method`): the first positional
-parameter is consumed; a leading `*args` absorbs `self` and stays -/
-def pyBound (s : Sig) : Sig :=
-  match s.po, s.pk with
-  | _ :: po, _ => { s with po := po }
-  | [], _ :: pk => { s with pk := pk }
-  | [], [] => s
-
-/- FULL (false, see `bound_star_args_witness`):
-   theorem bound_eq_pyBound (s : Sig) … : signatureParams true (paramNames s.toks) = (pyBound s).params -/
-
-/-- where Python binds `self`/`cls` to a named parameter, jedi removes exactly that parameter -/
-theorem bound_eq_pyBound_partial (s : Sig)
-    (hpk : ∀ p ∈ s.pk, dunder p.name = false) (hko : ∀ p ∈ s.ko, dunder p.name = false)
     (h : ((s.pk ++ s.ko).map P.name).Nodup) (hfirst : s.po ≠ [] ∨ s.pk ≠ []) :
-    signatureParams true (paramNames s.toks) = (pyBound s).params := by
-  rw [bound_drops_self s hpk hko h]
+    signatureParams true (paramNames s.toks) = s.params.drop 1 := by
+  simp only [signatureParams, paramNames_toks s hpk hko, processParams_params s h, if_true]
   obtain ⟨po, pk, vp, ko, vk⟩ := s
   cases po with
-  | cons p po => simp [pyBound, Sig.params]
+  | cons p po => simp [removeBoundParam, Sig.params, P.pname]
   | nil =>
     cases pk with
-    | cons p pk => simp [pyBound, Sig.params]
+    | cons p pk => simp [removeBoundParam, Sig.params, P.pname]
     | nil => simp at hfirst
 
-example : ∃ s : Sig, (s.po ≠ [] ∨ s.pk ≠ []) ∧ s.ko ≠ [] ∧ ((s.pk ++ s.ko).map P.name).Nodup :=
-  ⟨⟨[], [⟨['s', 'e', 'l', 'f'], none, none⟩, ⟨['a'], none, none⟩], none, [⟨['k'], none, none⟩], none⟩,
+/-- bound and the definition starts with `*args` ⇒ nothing is dropped (`self` lands in `*args`) -/
+theorem bound_keeps_star_args (s : Sig)
+    (hko : ∀ p ∈ s.ko, dunder p.name = false) (h : (s.ko.map P.name).Nodup)
+    (hpo : s.po = []) (hpk : s.pk = []) (hvp : s.vp.isSome) :
+    signatureParams true (paramNames s.toks) = s.params := by
+  obtain ⟨po, pk, vp, ko, vk⟩ := s
+  simp only at hpo hpk hvp
+  subst hpo hpk
+  have e := paramNames_toks ⟨[], [], vp, ko, vk⟩ (by simp) hko
+  have e2 := processParams_params ⟨[], [], vp, ko, vk⟩ (by simpa using h)
+  simp only [signatureParams, e, e2, if_true]
+  cases vp with
+  | none => simp at hvp
+  | some a => simp [removeBoundParam, Sig.params, P.pname]
+
+/-- the parameters `get_signatures` shows for a bound method / classmethod / class are those of
+`inspect.signature` of the bound object (`pyBound`, Model/Call.lean = `inspect._signature_bound_method`),
+for EVERY valid parameter list for which Python has such a signature: the first named parameter is
+removed, a leading `*args` stays -/
+theorem bound_eq_pyBound (s s' : Sig)
+    (hpk : ∀ p ∈ s.pk, dunder p.name = false) (hko : ∀ p ∈ s.ko, dunder p.name = false)
+    (h : ((s.pk ++ s.ko).map P.name).Nodup) (hb : pyBound s = some s') :
+    signatureParams true (paramNames s.toks) = s'.params := by
+  simp only [signatureParams, paramNames_toks s hpk hko, processParams_params s h, if_true]
+  obtain ⟨po, pk, vp, ko, vk⟩ := s
+  cases po with
+  | cons p po =>
+    simp only [pyBound, Option.some.injEq] at hb
+    subst hb
+    simp [removeBoundParam, Sig.params, P.pname]
+  | nil =>
+    cases pk with
+    | cons p pk =>
+      simp only [pyBound, Option.some.injEq] at hb
+      subst hb
+      simp [removeBoundParam, Sig.params, P.pname]
+    | nil =>
+      cases vp with
+      | none => simp [pyBound] at hb
+      | some a =>
+        simp only [pyBound, Option.isSome_some, if_true, Option.some.injEq] at hb
+        subst hb
+        simp [removeBoundParam, Sig.params, P.pname]
+
+example : ∃ s s' : Sig, pyBound s = some s' ∧ s.po = [] ∧ s.pk = [] ∧ s.ko ≠ [] ∧
+    ((s.pk ++ s.ko).map P.name).Nodup :=
+  ⟨⟨[], [], some ⟨['a', 'r', 'g', 's'], none, none⟩, [⟨['k'], none, some ['1']⟩], none⟩, _, rfl,
     by decide⟩
 
-/-- kernel-checked: `def m(*args, k=1)` reached through an instance – jedi drops `*args`
-(`m(*, k=1)`), Python keeps it (`(*args, k=1)`) -/
-theorem bound_star_args_witness :
-    signatureParams true (paramNames (Sig.toks ⟨[], [], some ⟨['a', 'r', 'g', 's'], none, none⟩,
-      [⟨['k'], none, some ['1']⟩], none⟩)) ≠
-      (pyBound ⟨[], [], some ⟨['a', 'r', 'g', 's'], none, none⟩, [⟨['k'], none, some ['1']⟩], none⟩).params := by
-  decide
+example : ∃ s s' : Sig, pyBound s = some s' ∧ s.pk ≠ [] ∧ s'.pk ≠ [] ∧ s.ko ≠ [] ∧
+    ((s.pk ++ s.ko).map P.name).Nodup :=
+  ⟨⟨[], [⟨['s', 'e', 'l', 'f'], none, none⟩, ⟨['a'], none, none⟩], none, [⟨['k'], none, none⟩], none⟩,
+    _, rfl, by decide⟩
+
+/-- the former counter-witness, now the fixed behaviour: `def m(*args, k=1)` reached through an
+instance is shown as `m(*args, k=1)` -/
+theorem bound_star_args_example :
+    sigToString ['m'] (signatureParams true (paramNames (Sig.toks
+      ⟨[], [], some ⟨['a', 'r', 'g', 's'], none, none⟩, [⟨['k'], none, some ['1']⟩], none⟩))) [] =
+      "m(*args, k=1)".toList := by decide
+
+/-- where Python has no signature for the bound object (`def m()`, `def m(*, k)`, `def m(**kw)`
+in a class: `inspect.signature` raises `ValueError`, every call through the instance raises
+`TypeError`) the first parameter is dropped all the same (characterisation, no Python ground truth) -/
+theorem bound_spec_invalid_method (s : Sig)
+    (hko : ∀ p ∈ s.ko, dunder p.name = false) (h : (s.ko.map P.name).Nodup)
+    (hb : pyBound s = none) :
+    signatureParams true (paramNames s.toks) = s.params.drop 1 := by
+  obtain ⟨po, pk, vp, ko, vk⟩ := s
+  cases po with
+  | cons p po => simp [pyBound] at hb
+  | nil =>
+    cases pk with
+    | cons p pk => simp [pyBound] at hb
+    | nil =>
+      cases vp with
+      | some a => simp [pyBound] at hb
+      | none =>
+        have e := paramNames_toks ⟨[], [], none, ko, vk⟩ (by simp) hko
+        have e2 := processParams_params ⟨[], [], none, ko, vk⟩ (by simpa using h)
+        simp only [signatureParams, e, e2, if_true]
+        cases ko with
+        | cons k ko => simp [removeBoundParam, Sig.params, P.pname]
+        | nil => cases vk <;> simp [removeBoundParam, Sig.params, P.pname]
 
 /-! ## the argument scan and `index` -/
 
